@@ -69,11 +69,14 @@ class SQLLiteQueryBuilder(QueryBuilder):
 
             querystring += self._set_sql(ctx)
 
+            from_clauses = list(self._from)
             if self._joins:
-                self._from.append(self._update_table.as_(self._update_table.get_table_name() + "_"))
+                from_clauses.append(
+                    self._update_table.as_(self._update_table.get_table_name() + "_")
+                )
 
-            if self._from:
-                querystring += self._from_sql(ctx)
+            if from_clauses:
+                querystring += self._from_sql(ctx, from_clauses)
             if self._joins:
                 querystring += " " + " ".join(join.get_sql(ctx) for join in self._joins)
 
